@@ -113,7 +113,7 @@ func setup(args []string) int {
 			return 2
 		}
 		cmd := exec.Command(bin, "litmus")
-		cmd.Env = append(os.Environ(), "GORACE=halt_on_error=0 exitcode=0")
+		cmd.Env = append(os.Environ(), "GORACE=halt_on_error=0 exitcode=0 suppress_equal_stacks=0 suppress_equal_addresses=0")
 		cmd.Stdout = os.Stdout
 		err = cmd.Run()
 		cleanup()
